@@ -103,7 +103,38 @@ type c35Flight struct {
 	id   int
 }
 
+// c35Run: two engines behind one scenario key. Mode 0 drives the done check
+// directly (one attempt, arbitrary confirmation histories); mode 1 runs the
+// real signingRetryLoop of all members with the real done check over several
+// attempts (engine in c11.go) so that confirmations of one attempt meet the
+// listeners of another.
 func c35Run(t *testing.T, r *verifsim.Run) {
+	if r.T.Weighted("c35-engine", 2, 1) == 1 {
+		c11Engine(t, r, "C35")
+		return
+	}
+	c35Single(t, r)
+}
+
+// c35ExtremeEnd: end blocks far beyond the timeout (boundaries of 32/63/64-bit
+// arithmetic); every value is > timeout.
+func c35ExtremeEnd(i int, timeout uint64) uint64 {
+	switch i {
+	case 0:
+		return timeout + 1
+	case 1:
+		return 1 << 32
+	case 2:
+		return 1<<63 - 1
+	case 3:
+		return 1 << 63
+	case 4:
+		return 1<<63 + timeout + 1
+	}
+	return ^uint64(0)
+}
+
+func c35Single(t *testing.T, r *verifsim.Run) {
 	tp := r.T
 	n := 3 + tp.Choose("group-size", 3)
 	// seat layout
@@ -503,11 +534,14 @@ func c35Run(t *testing.T, r *verifsim.Run) {
 				att = attempt + 1 - uint64(2*tp.Choose("forge-attempt-dir", 2))
 			}
 			end := timeoutBlock
-			switch tp.Weighted("forge-end", 4, 1, 2) {
+			switch tp.Weighted("forge-end", 4, 1, 2, 2) {
 			case 0:
 				end = timeoutBlock - uint64(1+tp.Choose("forge-end-early", 25))
 			case 2:
 				end = timeoutBlock + 1 + uint64(tp.Choose("forge-end-late", 3))
+			case 3:
+				end = c35ExtremeEnd(tp.Choose("forge-end-extreme", 6), timeoutBlock)
+				r.Probe("forged:extreme-end-block")
 			}
 			sg := 0
 			if tp.Chance("forge-other-signature", 1, 5) {
@@ -566,4 +600,140 @@ func c35Run(t *testing.T, r *verifsim.Run) {
 	rootCancel()
 	gates.ReleaseAll()
 	synctest.Wait()
+}
+
+// c35LoopOracle: C35 judged on the results of real signing retry loops. For
+// every member whose loop reported a signature, the attempt is identified by
+// the reported timeout block; every member that this member's done check was
+// armed with for that attempt must have a confirmation FOR THAT ATTEMPT (same
+// message, authenticated sender owns the seat, end block within that
+// attempt's timeout) delivered to the member's node after the done check was
+// armed. Deliveries are counted generously (whether or not the listener was
+// still alive), so the oracle only demands less than the statement.
+func c35LoopOracle(r *verifsim.Run, members []*c11Member, seatNode []int, deliv [][]c11DoneDelivery, message *big.Int) {
+	sigKey := func(s *tecdsa.Signature) string {
+		if s == nil {
+			return "nil"
+		}
+		return fmt.Sprintf("%v/%v/%d", s.R, s.S, s.RecoveryID)
+	}
+	for _, m := range members {
+		m.mu.Lock()
+		recs := append([]*c11Rec{}, m.recs...)
+		fin, ok := m.finished, m.resOK
+		end, tmo, sig := m.resEnd, m.resTimeout, m.resSig
+		m.mu.Unlock()
+		for _, x := range recs {
+			r.Logf("obs member=%d att=%d ready=%v listen=%v/%d incl=%v invoked=%v excl=%v", m.idx, x.n, x.ready, x.listened, x.listenTimeout, x.included, x.invoked, x.excluded)
+		}
+		if !fin || !ok {
+			continue
+		}
+		var x *c11Rec
+		ownFailedBefore := false
+		for _, y := range recs {
+			if y.listened && y.listenTimeout == tmo {
+				x = y
+			}
+		}
+		if x == nil {
+			r.Failf("C35:loop-result-for-unknown-attempt", "member %d: loop reported a result with attempt timeout %d but never armed a done check with that timeout", m.idx, tmo)
+			return
+		}
+		for _, y := range recs {
+			if y.n < x.n && y.invoked {
+				ownFailedBefore = true
+			}
+		}
+		r.Probe("loop:result-reported")
+		if x.n > 1 {
+			r.Probe("loop:result-in-a-later-attempt")
+		}
+		if ownFailedBefore {
+			r.Probe("loop:result-after-own-failed-attempt")
+		}
+		r.Logf("member %d loop result: attempt=%d end=%d", m.idx, x.n, end)
+		type conf struct {
+			sig string
+			end uint64
+		}
+		okConf := map[group.MemberIndex][]conf{}
+		staleSeats := map[int]bool{}
+		for _, d := range deliv[m.node] {
+			if d.seq <= x.listenSeq {
+				continue
+			}
+			seat := int(d.dm.senderID) - 1
+			if seat < 0 || seat >= len(seatNode) || seatNode[seat] != d.from {
+				continue
+			}
+			if d.dm.message.Cmp(message) != 0 || d.dm.signature == nil {
+				continue
+			}
+			if d.dm.attemptNumber != uint64(x.n) {
+				staleSeats[seat+1] = true
+				r.Probe("loop:other-attempt-confirmation-delivered-while-armed")
+				continue
+			}
+			if d.dm.endBlock > x.listenTimeout {
+				continue
+			}
+			if !c11Has(x.included, d.dm.senderID) {
+				continue
+			}
+			okConf[d.dm.senderID] = append(okConf[d.dm.senderID], conf{sigKey(d.dm.signature), d.dm.endBlock})
+		}
+		var missing []group.MemberIndex
+		for _, mi := range x.included {
+			if len(okConf[mi]) == 0 {
+				missing = append(missing, mi)
+			}
+		}
+		if len(missing) > 0 {
+			var st []int
+			for k := range staleSeats {
+				st = append(st, k)
+			}
+			sort.Ints(st)
+			if len(st) > 0 {
+				r.Failf("C35:other-attempt-confirmation-counted",
+					"member %d reported a signature for attempt %d (included %v) although members %v never delivered a confirmation for attempt %d to it; confirmations labelled with ANOTHER attempt from seats %v were delivered while attempt %d's done check was armed and must have been counted",
+					m.idx, x.n, x.included, missing, x.n, st, x.n)
+			} else {
+				r.Failf("C35:loop-result-before-all-included-confirmed",
+					"member %d reported a signature for attempt %d (included %v) although members %v never delivered an acceptable confirmation for that attempt to it",
+					m.idx, x.n, x.included, missing)
+			}
+			return
+		}
+		sk := sigKey(sig)
+		var lo, hi uint64
+		for _, mi := range x.included {
+			found := false
+			mn, mx := okConf[mi][0].end, okConf[mi][0].end
+			for _, c := range okConf[mi] {
+				found = found || c.sig == sk
+				if c.end < mn {
+					mn = c.end
+				}
+				if c.end > mx {
+					mx = c.end
+				}
+			}
+			if !found {
+				r.Failf("C35:mismatching-signature-reported", "member %d reported signature %s for attempt %d but included member %d never confirmed that signature (%v)", m.idx, sk, x.n, mi, okConf[mi])
+				return
+			}
+			if mn > lo {
+				lo = mn
+			}
+			if mx > hi {
+				hi = mx
+			}
+		}
+		if end < lo || end > hi {
+			r.Failf("C35:end-block-not-latest-of-included", "member %d reported end block %d for attempt %d; the latest end block among the included members' confirmations is in [%d,%d]", m.idx, end, x.n, lo, hi)
+			return
+		}
+	}
 }
